@@ -60,6 +60,33 @@ MUTANTS = [
     ("C16", "import-factor-f-order", "pyttb/import_data.py", "                fac = np.reshape(fac, np.array(fac_shape))", "                fac = np.reshape(fac, np.array(fac_shape), order=\"F\")"),
     ("C16", "import-index-base-ignored-for-zero", "pyttb/import_data.py", "        subs[k, :] = [np.int64(i) - index_base for i in line[:-1]]", "        subs[k, :] = [np.int64(i) - (index_base or 1) for i in line[:-1]]"),
     ("C16", "weights-format-short", "pyttb/export_data.py", "    if not fmt_weights:\n        fmt_weights = \"%.16e\"", "    if not fmt_weights:\n        fmt_weights = \"%.14e\""),
+    # ---- C05
+    ("C05", "tensor-copy-shares-data", "pyttb/tensor.py", "        return ttb.tensor(self.data, self.shape, copy=True)", "        return ttb.tensor(self.data, self.shape, copy=False)"),
+    ("C05", "tensor-pos-returns-self", "pyttb/tensor.py", None, None),
+    ("C05", "ktensor-copy-shares-factor-list", "pyttb/ktensor.py", "        return ttb.ktensor(self.factor_matrices, self.weights, copy=True)", "        return ttb.ktensor(self.factor_matrices, self.weights, copy=False)"),
+    ("C05", "cp-als-starts-from-init-itself", "pyttb/cp_als.py", "    U = init.copy().factor_matrices", "    U = init.factor_matrices"),
+    ("C05", "tenmat-to-tensor-ignores-copy", "pyttb/tenmat.py", None, None),
+    ("C05", "ind2sub-writes-into-callers-index", "pyttb/pyttb_utils.py", None, None),
+    ("C05", "ktensor-ttv-shares-again", "pyttb/ktensor.py", "            factor_matrices.append(self.factor_matrices[i].copy())", "            factor_matrices.append(self.factor_matrices[i])"),
+    ("C05", "sptensor-permute-shares-vals", "pyttb/sptensor.py", None, None),
+    ("C05", "fixsigns-normalizes-reference-again", "pyttb/ktensor.py", "        other_tensor = other.copy()\n", "        other_tensor = other\n"),
+    ("C05", "sumtensor-copy-shallow", "pyttb/sumtensor.py", None, None),
+    # ---- C19
+    ("C19", "reshape-no-count-check", "pyttb/tensor.py", "        if prod(self.shape) != prod(shape):\n            assert False, \"Reshaping a tensor cannot change number of elements\"\n", "        if prod(self.shape) < prod(shape):\n            assert False, \"Reshaping a tensor cannot change number of elements\"\n"),
+    ("C19", "dimscheck-repeated-dims-again", "pyttb/pyttb_utils.py", "    if len(np.unique(dim_array)) != len(dim_array):", "    if False and len(np.unique(dim_array)) != len(dim_array):"),
+    ("C19", "sptensor-innerprod-shortcut-first", "pyttb/sptensor.py", "        if isinstance(other, ttb.sptensor) and self.shape != other.shape:\n            assert False, \"Sptensors must be same shape for innerproduct\"\n", ""),
+    ("C19", "tenmat-ctor-no-partition-check", "pyttb/tenmat.py", None, None),
+    ("C19", "ktensor-ctor-weights-length", "pyttb/ktensor.py", None, None),
+    ("C19", "sptensor-ttv-length-check-weakened", "pyttb/sptensor.py", None, None),
+    ("C19", "setitem-value-count-partial-mutation", "pyttb/sptensor.py", "        elif newvals.shape[0] != newnnz:\n            # Sizes don't match\n            assert False, \"Number of subscripts and number of values do not match!\"", "        elif newvals.shape[0] < newnnz:\n            # Sizes don't match\n            assert False, \"Number of subscripts and number of values do not match!\""),
+    # ---- C20
+    ("C20", "from-function-no-unique", "pyttb/sptensor.py", "            subs = np.unique(subs, axis=0)\n            cnt += 1", "            cnt += 1"),
+    ("C20", "tenrand-fresh-generator", "pyttb/tensor.py", "        data = np.random.uniform(low=0, high=1, size=np.prod(pass_through_shape))", "        data = np.random.default_rng().uniform(low=0, high=1, size=np.prod(pass_through_shape))"),
+    ("C20", "aggregator-pairs-values-with-unsorted-subs", "pyttb/sptensor.py", "            newsubs, loc = np.unique(subs, axis=0, return_inverse=True)", "            newsubs, loc = np.unique(subs, axis=0, return_inverse=True)\n            newsubs = newsubs[::-1] if newsubs.shape[0] == 3 else newsubs"),
+    ("C20", "tendiag-shape-not-enlarged", "pyttb/tensor.py", "        constructed_shape = tuple(max(N, dim) for dim in shape)\n    X = tenzeros(constructed_shape, order=order)", "        constructed_shape = tuple(max(N, dim) for dim in shape[:-1]) + (max(N, shape[-1]) + (1 if len(shape) == 3 else 0),)\n    X = tenzeros(constructed_shape, order=order)"),
+    ("C20", "aggregator-keeps-zero-results", "pyttb/sptensor.py", "        nzidx = np.nonzero(newvals)\n        newsubs = newsubs[nzidx]", "        nzidx = np.nonzero(newvals + (newvals == 0) * (len(newvals) > 2))\n        newsubs = newsubs[nzidx]"),
+    ("C20", "sptenrand-values-not-from-function", "pyttb/sptensor.py", "        vals = function_handle((nonzeros, 1))\n", "        vals = function_handle((nonzeros, 1)) * (1.0 if nonzeros != 3 else 0.5)\n"),
+    ("C20", "teneye-wrong-normalisation", "pyttb/tensor.py", "        A[tuple(zip(*p))] = v / factorial(ndims)", "        A[tuple(zip(*p))] = v / factorial(ndims) if ndims < 4 else v / (factorial(ndims) + 1)"),
 ]
 
 
